@@ -28,7 +28,7 @@ ASSUMPTIONS = [
 ]
 DECIDING = ["Circuit.inverse", "Circuit.controlled", "create_layer_of_gates", "apply_gate_to_qubits",
             "add_ancilla_register", "inverse-identity", "double-inverse"]
-BUDGET = {"quick": (4, 25, 600), "thorough": (16, 200, 100000)}
+BUDGET = {"quick": (4, 25, 150), "thorough": (16, 200, 100000)}
 CASE_TIMEOUT = {"quick": 15, "thorough": 40}
 K1 = "K1-dagger-of-fractional-power"
 TOL = 1e-8
